@@ -108,11 +108,48 @@ def run_case(case):
 
 
 def replay(case):
-    msgs = run_case(case)
+    msgs = memo_case() if case.get("memo") else run_case(case)
     return bool(msgs), f"case={case}\n" + ("\n".join(msgs) or "holds")
 
 
-def search(seed=0, faulty=True, switches=False, budget=400):
+def memo_case():
+    """C02: bodies returning falsy values (None included) run once per relevant assignment; a shared dependency runs once"""
+    from labrea import dataset, Option
+    msgs = []
+    for ret in (None, 0, "", [], False, 5):
+        runs = {"n": 0, "eff": 0}
+
+        @dataset(effects=[lambda v: runs.__setitem__("eff", runs["eff"] + 1)])
+        def leaf(a=Option("A")):
+            runs["n"] += 1
+            return ret
+
+        @dataset
+        def left(x=leaf):
+            return ("l", x)
+
+        @dataset
+        def right(x=leaf):
+            return ("r", x)
+
+        @dataset.nocache
+        def top(l=left, r=right):
+            return (l, r)
+        top({"A": 1})
+        if runs["n"] != 1:
+            msgs.append(f"body returning {ret!r}: shared dependency ran {runs['n']} times within one evaluation")
+        top({"A": 1, "UNUSED": 3})
+        leaf({"A": 1})
+        if runs["n"] != 1 or runs["eff"] != 1:
+            msgs.append(f"body returning {ret!r}: ran {runs['n']} times / effect {runs['eff']} times over repeats with the same relevant options")
+    return msgs
+
+
+def search(seed=0, faulty=True, switches=False, budget=400, memo=False):
+    if memo:
+        m = memo_case()
+        if m:
+            return {"module": "harness.cache_search", "case": {"memo": True}}
     rnd = random.Random(seed)
     faults = ["behave", "miss", "forget", "lie-exists", "fail-get"] if faulty else ["behave"]
     flags = [{}, {"LABREA": {"CACHE": {"DISABLED": True}}}, {"LABREA": {"CACHE": {"DISABLE": True}}}, {"LABREA": {"EFFECTS": {"DISABLED": True}}},
